@@ -1086,3 +1086,31 @@ def reentry_matrix():
             for inp in (b"b", b"ab", b"aaab", b"aabab" + b"b" * 8, b"a" * 40 + b"b" * 60):
                 out.append(("reenter:%s:%d:%d" % (name, nl, len(inp)), xref.parse(src), inp))
     return out
+
+
+def guard_matrix():
+    """Searches whose loop or if condition guards an array access with a bounds test (`(i ~= n) and (a[i] ~= x)` and its
+    variants): short-circuit evaluation means a[n] (or a[-1]) is never read, whichever array it would fall outside of -
+    the first-declared array sits at the very top of memory, so one word past it is outside the machine."""
+    out = []
+    guards = [
+        ("ne-and-ne", "(i ~= n) and (AA[i] ~= x)"), ("lt-and-ne", "(i < n) and (AA[i] ~= x)"), ("gt-and-ne", "(n > i) and (AA[i] ~= x)"),
+        ("le-and-ne", "(i <= (n - 1)) and (AA[i] ~= x)"), ("not-or", "~((i = n) or (AA[i] = x))"), ("not-ge-or", "~((i >= n) or (AA[i] = x))"),
+        ("ne-and-not", "(i ~= n) and (~(AA[i] = x))"), ("nested", "(i ~= n) and ((AA[i] ~= x) and (AA[i] ~= (x + 1)))"),
+    ]
+    for gname, g in guards:
+        for which in ("first", "second"):
+            for nsize in (1, 3, 8):
+                for nkind in ("lit", "val", "var"):
+                    for present in (False, True):
+                        aa = "top" if which == "first" else "low"
+                        n = {"lit": str(nsize), "val": "N", "var": "nv"}[nkind]
+                        x = str(nsize) if present else "77"
+                        src = ("val N = %d;\narray top[%d];\narray low[%d];\nvar nv;\n" % (nsize, nsize, nsize) +
+                               "func find(val x) is\n  var i;\n  var n;\n{\n  n := %s;\n  i := 0;\n  while %s do i := i + 1;\n  return i\n}\n" % (n, g.replace("AA", aa)) +
+                               "func has(val x) is\n  var i;\n  var n;\n{\n  n := %s;\n  i := n - 1;\n  while (i >= 0) and (%s[i] ~= x) do i := i - 1;\n"
+                               "  if (i ~= (0 - 1)) and (%s[i] = x) then return 1 else return 0\n}\n" % (n, aa, aa) +
+                               "proc main() is\n  var k;\n{\n  nv := %d;\n  k := 0;\n  while k < %d do { top[k] := k + 1; low[k] := k + 1; k := k + 1 };\n"
+                               "  1(find(%s) + 48, 0);\n  1(has(%s) + 48, 0);\n  0(find(%s))\n}\n" % (nsize, nsize, x, x, x))
+                        out.append(("guard:%s:%s:%d:%s:%s" % (gname, which, nsize, nkind, "hit" if present else "miss"), xref.parse(src), b""))
+    return out
